@@ -176,11 +176,15 @@ def two_level(run, provenance=False):
         for _ in range(1 if q else 5):
             module = None
             ovh = None
+            origins = []
             for t in chain:
                 r = level_recipe(t, rng, nmods=1, module_override=module, ovh_override=ovh)
                 if r is None:
                     break
                 tr = exec_level(r)
+                if origins:          # the plasmids of the earlier levels, which the inner provenance features name
+                    tr[0]["origins"] = list(origins)
+                origins.extend({"id": x["id"], "seq": x["seq"]} for x in [tr[0]["vec"]] + tr[0]["mods"])
                 traces.append(tr)
                 recipes.append(r)
                 nx = tr[-1]["next"]["res"]
@@ -188,6 +192,8 @@ def two_level(run, provenance=False):
                     break
                 # the product, with its features (inner provenance included), becomes the module of the next level
                 module = {"id": tr[0]["out"]["id"], "seq": dna.dec(tr[0]["out"]["seq"]), "feats": feats_from_out(tr[0]["out"])}
+                if rng.random() < 0.7:      # the plasmid is stored with some other origin before it is used again
+                    module["rot"] = rng.randrange(1, len(module["seq"]))
                 ovh = [dna.dec(nx["up"]).upper(), dna.dec(nx["down"]).upper()]
     run.validate("two-level", "Trace_Assembly", traces, recipes, sigfn=sig, describe=describe)
     run.extra["two_level_steps"] = len(traces)
